@@ -76,6 +76,9 @@ func mapOrderHazards(p *core.Prog, f *core.Fn) []string {
 		core.Walk(rs.Body, false, func(y ast.Node) bool {
 			if ret, ok := y.(*ast.ReturnStmt); ok {
 				for _, res := range ret.Results {
+					if tr := info.TypeOf(res); tr != nil && core.IsErrorType(tr) {
+						continue // which of several failing entries is named in the error is not a result
+					}
 					if mentionsAny(info, res, vars) {
 						out = append(out, fmt.Sprintf("%s: returns the first match found while ranging over a map: which of several matching entries wins depends on the map iteration order", p.Rel(ret.Pos())))
 					}
